@@ -33,6 +33,26 @@ Theorem C08_requests_fit : 255 * 3 <= RESERVED.
 Proof. exact requests_fit. Qed.
 Print Assumptions C08_requests_fit.
 
+(* a reused buffer (Decoder.Reset with another size option): whatever array the buffer holds from earlier uses, Reset yields a
+   well-formed, empty window of RESERVED + clamp(size) bytes within the capacity -- the slice expression never panics -- and
+   keeps the array exactly when it is large enough; the reused buffer then serves any stream like a fresh one *)
+Theorem C08_reset_any_history : forall (s : rstate) size,
+  exists s', rb_reset s size = Ok s' /\ inv (fst s') /\ length (buf (fst s')) = RESERVED + clamp_size size /\
+             pending (fst s') = [] /\ rb_cap s <= rb_cap s' /\
+             (RESERVED + clamp_size size <= rb_cap s -> rb_cap s' = rb_cap s).
+Proof. exact rb_reset_ok. Qed.
+Print Assumptions C08_reset_any_history.
+Theorem C08_reused_like_fresh : forall (s : rstate) size r ns, Forall (fun n => n <= RESERVED) ns ->
+  exists s', rb_reset s size = Ok s' /\
+  map erase_kind (run_script (fst s') r ns) = map erase_kind (run_script (rb_new size) r ns).
+Proof. exact reused_like_fresh. Qed.
+Print Assumptions C08_reused_like_fresh.
+(* non-vacuity: a default-size buffer reset to 4500 (inside the 765-byte band above the old size) gets a new array *)
+Example C08_reset_instance :
+  match rb_reset (rb_new 4096, []) 4500 with Ok s' => length (buf (fst s')) = 765 + 4500 /\ rb_cap s' = 765 + 4500 | _ => False end /\
+  match rb_reset (rb_new 4096, []) 1000 with Ok s' => length (buf (fst s')) = 765 + 1000 /\ rb_cap s' = 765 + 4096 | _ => False end.
+Proof. vm_compute. repeat split. Qed.
+
 (* the error kind depends on the chunking: the same 3-byte stream, a 5-byte request *)
 Theorem C08_error_kind_refuted : exists data n p1 p2,
   fst (fst (read_n (rb_new 0) {| rest := data; plan := p1; eof_with_data := false |} n)) = Err UnexpectedEOF /\
